@@ -28,6 +28,13 @@ def ser_b(v) -> Any:
 def parse_p(v: Any) -> str:
     CALLS.append(("parse_p", v))
     return "p:" + str(v)
+class Money:
+    """a scalar whose parse function is the type itself (parse = type = .scal.Money)"""
+    def __init__(self, raw):
+        CALLS.append(("Money", raw))
+        self.raw = raw
+    def __eq__(self, o):
+        return isinstance(o, Money) and o.raw == self.raw
 def parse_q(v: Any) -> str:
     CALLS.append(("parse_q", v))
     return "q:" + str(v)
@@ -48,9 +55,11 @@ def sdl():
             args.append(f"  e{s}{i}(v: {st.replace('T', s)}): Int")
             args.append(f"  x{s}{i}(inp: I{s}{i}): Int")
     tf.append("  q: Q")
+    tf.append("  m: M")
+    tf.append("  ms: [M!]")
     args.append("  up(f: Upload!, dt: DT, inp: ISDT): Int")
     ins.append("input ISDT { dt: DT, s: S }")
-    return ("scalar B\nscalar P\nscalar S\nscalar DT\nscalar U\nscalar Q\nscalar Upload\n"
+    return ("scalar B\nscalar P\nscalar S\nscalar DT\nscalar U\nscalar Q\nscalar M\nscalar Upload\n"
             "interface Animal { id: ID! }\ntype Cat implements Animal { id: ID! born: P seen: [B!] }\ntype Dog implements Animal { id: ID! born: P }\ntype Fish implements Animal { id: ID! }\n"
             "union Pet = Cat | Dog\n"
             "type Query {\n  t: Obj!\n  zoo: [Animal!]!\n  zooOpt: [Animal]\n  star: Animal\n  pets: [[Pet!]]!\n" + "\n".join(args) + "\n}\n"
@@ -65,6 +74,7 @@ def ops():
             out.append(f"query A{s}{i}($v: {st.replace('T', s)}) {{ e{s}{i}(v: $v) }}")
             out.append(f"query X{s}{i}($inp: I{s}{i}) {{ x{s}{i}(inp: $inp) }}")
     # Q has the same Python type as P but its own parse function: both occur in one operation and in one fragment
+    out.append("query RM { t { m ms } }")
     out.append("query Up($f: Upload!, $dt: DT, $inp: ISDT) { up(f: $f, dt: $dt, inp: $inp) }")
     sel = "{ __typename id ... on Cat { born seen } ... on Dog { born } }"
     out.append(f"query Zoo {{ zoo {sel} zooOpt {sel} star {sel} pets {{ __typename ... on Cat {{ born }} ... on Dog {{ born }} }} }}")
@@ -75,6 +85,7 @@ def ops():
 CONFIG = {"scalars": {"B": {"type": ".scal.Code", "parse": ".scal.parse_b", "serialize": ".scal.ser_b"},
                       "P": {"type": "str", "parse": ".scal.parse_p"},
                       "Q": {"type": "str", "parse": ".scal.parse_q"},
+                      "M": {"type": ".scal.Money", "parse": ".scal.Money"},
                       "S": {"type": "str", "serialize": ".scal.ser_s"},
                       "DT": {"type": "datetime.datetime"}},
           "files_to_include": ["scal.py"], "target_package_name": "p07", "async_client": False}
@@ -333,6 +344,34 @@ def check_scalars_in_multipart(which: int) -> bool:
     with NoTracing():
         try:
             ok, _ = upload_case(w)
+        except Exception:
+            ok = False
+    return ok
+
+
+def parse_is_type_case(which: int):
+    """a scalar configured with parse = its own type: every non-null occurrence is built by calling the type once"""
+    del SC.CALLS[:]
+    Model = getattr(PKG, META["RM"].model)
+    payload, want = [({"t": {"m": "1.5", "ms": ["2", "3"]}}, [("Money", "1.5"), ("Money", "2"), ("Money", "3")]),
+                     ({"t": {"m": None, "ms": None}}, []), ({"t": {"m": "x", "ms": []}}, [("Money", "x")])][which]
+    obj = Model.model_validate(payload)
+    ok = list(SC.CALLS) == want
+    if which == 0:
+        ok = ok and isinstance(obj.t.m, SC.Money) and obj.t.m.raw == "1.5" and [x.raw for x in obj.t.ms] == ["2", "3"]
+    return ok, f"parse-is-type #{which}: calls {SC.CALLS}"
+
+
+def check_parse_is_type(which: int) -> bool:
+    """
+    post: _
+    """
+    if SETUP_ERROR:
+        return False
+    w = pick(which, 3)
+    with NoTracing():
+        try:
+            ok, _ = parse_is_type_case(w)
         except Exception:
             ok = False
     return ok
